@@ -14,6 +14,9 @@ pub trait Hx {
     fn fin(self: Box<Self>) -> Vec<u8>;
     fn rst(&mut self);
     fn cl(&self) -> Box<dyn Hx>;
+    fn as_any(&self) -> &dyn std::any::Any;
+    /// `Clone::clone_from(self, src)`: overwrite a live instance with a copy of another one of the same type
+    fn cl_from(&mut self, src: &dyn Hx);
     fn chain_fin(self: Box<Self>, d: &[u8]) -> Vec<u8>;
     /// `Digest::digest(msg)`: the one-call convenience constructor + update + finalize
     fn static_digest(&self, d: &[u8]) -> Vec<u8>;
@@ -74,6 +77,13 @@ impl<D: Digest + digest::FixedOutput + digest::FixedOutputDirty + digest::Reset 
     }
     fn cl(&self) -> Box<dyn Hx> {
         Box::new(self.clone())
+    }
+    fn as_any(&self) -> &dyn std::any::Any {
+        self
+    }
+    fn cl_from(&mut self, src: &dyn Hx) {
+        let s = src.as_any().downcast_ref::<D>().expect("harness: clone_from across types");
+        Clone::clone_from(self, s)
     }
     fn chain_fin(self: Box<Self>, d: &[u8]) -> Vec<u8> {
         Digest::finalize(Digest::chain(*self, d)).to_vec()
@@ -319,9 +329,18 @@ impl HEpisode {
     }
     pub fn clone_to(&mut self, out: &mut dyn std::io::Write, src: usize, dst: usize) {
         self.k += 1;
-        let s = self.slots.get(&src).expect("slot");
-        let c = Slot { h: s.h.cl(), alg: s.alg.clone(), n: s.n, msg: s.msg.clone() };
-        self.slots.insert(dst, c);
+        if self.slots.contains_key(&dst) && dst != src {
+            // destination alive: Clone::clone_from reuses it
+            let mut d = self.slots.remove(&dst).unwrap();
+            let s = self.slots.get(&src).expect("slot");
+            d.h.cl_from(&*s.h);
+            d.msg = s.msg.clone();
+            self.slots.insert(dst, d);
+        } else {
+            let s = self.slots.get(&src).expect("slot");
+            let c = Slot { h: s.h.cl(), alg: s.alg.clone(), n: s.n, msg: s.msg.clone() };
+            self.slots.insert(dst, c);
+        }
         Ev::new(self.k, "clone").i("i", src as i64).i("j", dst as i64).s("res", "ok").emit(out);
     }
     pub fn reset(&mut self, out: &mut dyn std::io::Write, id: usize) {
@@ -419,8 +438,11 @@ pub fn drive_hash_histories(out: &mut dyn std::io::Write, seed: u64, thorough: b
                 let id = *rng.pick(&ids);
                 match rng.below(12) {
                     0 => {
-                        if ids.len() < 4 {
+                        if ids.len() < 4 && rng.below(3) != 0 {
                             let dst = (1..=4).find(|d| !ids.contains(d)).unwrap();
+                            ep.clone_to(out, id, dst);
+                        } else if ids.len() > 1 {
+                            let dst = *ids.iter().find(|d| **d != id).unwrap();
                             ep.clone_to(out, id, dst);
                         }
                     }
